@@ -1085,8 +1085,23 @@ class Tensor:
 
         _uniques_bases_then_arrs = ()
 
+        # Python scalars are "weak" operands: like NumPy (NEP 50) they adopt the
+        # precision of the array operands instead of forcing float64 / int64
+        array_dtypes = [
+            var.dtype for var in input_vars if isinstance(var, (Tensor, np.ndarray))
+        ]
         tensor_vars = tuple(
-            cls(var, constant=True, copy=False) if not isinstance(var, Tensor) else var
+            (
+                cls(
+                    np.asarray(var, dtype=np.result_type(var, *array_dtypes)),
+                    constant=True,
+                    copy=False,
+                )
+                if array_dtypes and type(var) in (bool, int, float)
+                else cls(var, constant=True, copy=False)
+            )
+            if not isinstance(var, Tensor)
+            else var
             for var in input_vars
         )
 
